@@ -8,7 +8,7 @@ loops over the *input variables* (it never calls tensorly); views are compared w
 (row = i_mode, column = row-major rank of the remaining indices; vec = row-major ravel).
 
 Families of configurations (key = <tenalg backend>/<family>/...):
-  cp, tucker, tt, tr, ttm, p2   valid factor sets: conversion, views, shape/rank, norm, tuple and wrapper input
+  cp, cp_order1, tucker, tt, tr, ttm, p2   valid factor sets: conversion, views, shape/rank, norm, tuple and wrapper input
   tucker_opts                   skip_factor / transpose_factors options of tucker_to_tensor/_unfolded/_vec
   reject/<format>/<case>        structurally invalid concrete shape combination: validator, wrapper constructor and
                                 conversion must raise
@@ -31,8 +31,9 @@ PID = "C03"
 ENGINE = "E1"
 EXPLANATION = (
     "Bounded symbolic execution of the real conversion routines and wrapper classes of the six factorised formats on NumPy object "
-    "arrays of z3 reals (every factor, core, weight and mask entry is a solver variable; PARAFAC2 projections are rational Givens "
-    "frames of symbolic angles, orthonormal identically), under both tenalg backends. Each dense entry is compared with the defining "
+    "arrays of z3 reals (every factor, core, weight and mask entry is a solver variable; PARAFAC2 projections are matrices of solver "
+    "variables under the precondition P^T P = I, which the reconstruction identities do not need and which only lets the validator's "
+    "tolerance test pass), under both tenalg backends. Each dense entry is compared with the defining "
     "sum of outer products / chain contraction over the input variables by an SMT validity query (polynomial identity); unfolded, "
     "vectorised, matrix and slice views with row-major index formulas of that reconstruction; reported shape/rank with the sizes the "
     "harness built; norms through the root atom's argument (norm*norm == sum of squared dense entries, norm >= 0). Structural "
@@ -93,7 +94,6 @@ BOUNDS = {
 }
 OUTSIDE = [
     "sizes > 3, orders > 4, ranks > 3",
-    "PARAFAC2 projections needing an infinite half-angle parameter (rotation by pi in a Givens plane: measure zero)",
     "numerical orthonormality tolerance: only the two sides of the validator's own 1e-5 threshold are distinguished",
     "complex entries, sparse backend, IEEE rounding",
 ]
